@@ -92,6 +92,10 @@ impl Check for C01 {
         if !wt.all_ok() {
             // the property is about sequences the writer accepts
             st.inc("writer_rejected");
+            if std::env::var("VERIF_TRACE_REJECT").is_ok() {
+                let i = wt.results.iter().position(|r| r.is_err());
+                eprintln!("C01 writer rejected: op {:?} of {} -> {:?} / into_inner {:?}\n ops: {}", i, c.ops.len(), i.map(|i| (c.ops[i].short(), wt.results[i].clone())), wt.into_inner, c.ops.iter().map(|o| o.short()).collect::<Vec<_>>().join(" "));
+            }
             return Ok(ExecOk { nontrivial: false });
         }
         if wcases::ambiguous_history(&c.spec, &c.ops) {
